@@ -41,7 +41,7 @@ def directed(rng: random.Random) -> dict:
                        "if_defines", "if_defines_label", "macro_if_defines", "for_shadow", "for_after", "macro_defined_in_if",
                        "macro_defined_in_empty_loop", "loop_state_per_iteration", "scope_in_loop", "loop_forward_label_shadow",
                        "taken_branch_fails", "table_in_loop", "loop_var_width_boundary", "block_argument_in_loop", "statement_after_if_named_like_a_keyword",
-                       "condition_undefined_then_defined", "empty_first_block", "condition_over_parameter_known_later"])
+                       "condition_undefined_then_defined", "empty_first_block", "condition_over_parameter_known_later", "constant_argument_beside_a_forward_label"])
     tables: dict = {}
     db = lambda *es: {"k": "data", "d": "db", "es": [e if isinstance(e, list) else E(e) for e in es]}  # noqa: E731
     if kind == "condition_undefined_then_defined":
@@ -65,6 +65,17 @@ def directed(rng: random.Random) -> dict:
         total = 4 * 2 + 3 * len(els) + 1
         later = 0x8000 + total
         exp = els + later.to_bytes(2, "little") + els + b"\x00\x00" + b"\x11\x03\x00" + els + (later + 1).to_bytes(2, "little") + b"\x60"
+        return {"prog": body, "files": {}, "tables": tables, "rom": "low", "family": "directed:" + kind, "expect_bytes": exp.hex()}
+    if kind == "constant_argument_beside_a_forward_label":
+        # a plain constant argument drives a conditional and a loop bound while a sibling argument names a label defined later: the constant is known
+        # when the body is expanded whatever its neighbours are
+        mdef = {"k": "macro", "n": "entq", "ps": ["pflag", "ptarget", "pcount"], "b": [
+            {"k": "if", "c": E("pflag"), "t": [{"k": "ins", "m": "jmp", "shape": "dir", "sz": "w", "e": E("ptarget")}], "e": [db(0xEA)]},
+            {"k": "for", "v": "itq", "a": E(0), "b": E("pcount"), "body": [db(E("itq", "+", 0x40))]}]}
+        body[0] = {"k": "org", "e": E(0x8000)}
+        body += [mdef, {"k": "call", "n": "entq", "as": [E(1), E("irqq"), E(2)]}, {"k": "call", "n": "entq", "as": [E(0), E("irqq"), E(3)]}, {"k": "label", "n": "irqq"}, db(0x40)]
+        later = 0x8000 + 3 + 2 + 1 + 3
+        exp = b"\x4c" + later.to_bytes(2, "little") + b"\x40\x41" + b"\xea" + b"\x40\x41\x42" + b"\x40"
         return {"prog": body, "files": {}, "tables": tables, "rom": "low", "family": "directed:" + kind, "expect_bytes": exp.hex()}
     if kind == "empty_first_block":
         # `.if RELEASE { } else { debug code }` is how "if not" is written: an empty (or comment-only) first block is still the one that is taken
@@ -330,6 +341,9 @@ def run_big_loop(res: Res, count: int) -> None:
     """A loop over a whole bank: one body copy per value, in order (judged directly, the twin would be 65536 blocks)."""
     from vf.harness import assemble
 
+    # an earlier assembly of this process unrolled a loop and then failed half-way: whatever it counted is gone with it
+    assemble("*=0x008000\n.for vq := 0, 0x300 {\n.db vq & 0xff\n}\nno_such_macro_q(1)\n")
+    res.count("failed_assemblies_before_the_bank_sized_loop")
     for start in (0, 0x20):
         src = f"*=0x018000\n.for vbig := {start:#x}, {start + count:#x} {{\n.db vbig >> 8\n}}\n.db 0xEE\n"
         r = assemble(src)
